@@ -253,6 +253,9 @@ def interpreted_returns(model, cfg, mode) -> bool:
 
     if not os.environ.get("NUMBA_DISABLE_JIT"):
         return False
+    from sim import seams
+
+    seams.install()  # imports the engine: the step clock registers the code objects of what is imported
     CLOCK.install()
     CLOCK.set_budget(e1_engine.step_budget(model, cfg))
     try:
